@@ -177,6 +177,7 @@ pub struct RunOut {
     pub stderr: Vec<u8>,
     pub timed_out: bool,
     pub wall_ms: u128,
+    pub retried: bool,
 }
 
 impl RunOut {
@@ -195,15 +196,28 @@ impl RunOut {
     }
 }
 
-/// Run a command with a generous wall-clock watchdog (a firing watchdog is never a verdict)
+/// Run a command with a generous wall-clock watchdog (a firing watchdog is never a verdict).
+/// On a heavily loaded machine a 4-second job has been seen to exceed three minutes, so a
+/// command that hits the watchdog is run once more with four times the budget before the
+/// timeout is reported.
 pub fn run(cmd: &mut Command, timeout: Duration) -> RunOut {
+    let first = run_once(cmd, timeout);
+    if first.timed_out && timeout < Duration::from_secs(1000) {
+        let mut second = run_once(cmd, timeout * 4);
+        second.retried = true;
+        return second;
+    }
+    first
+}
+
+fn run_once(cmd: &mut Command, timeout: Duration) -> RunOut {
     let start = Instant::now();
     cmd.stdin(Stdio::null()).stdout(Stdio::piped()).stderr(Stdio::piped());
     cmd.env("RUST_BACKTRACE", "0");
     let mut child = match cmd.spawn() {
         Ok(c) => c,
         Err(e) => {
-            return RunOut { code: None, stdout: vec![], stderr: format!("spawn failed: {e}").into_bytes(), timed_out: false, wall_ms: 0 }
+            return RunOut { code: None, stdout: vec![], stderr: format!("spawn failed: {e}").into_bytes(), timed_out: false, wall_ms: 0, retried: false }
         }
     };
     // drain the pipes on helper threads so a chatty child cannot block
@@ -237,7 +251,7 @@ pub fn run(cmd: &mut Command, timeout: Duration) -> RunOut {
     };
     let stdout = t1.join().unwrap_or_default();
     let stderr = t2.join().unwrap_or_default();
-    RunOut { code, stdout, stderr, timed_out, wall_ms: start.elapsed().as_millis() }
+    RunOut { code, stdout, stderr, timed_out, wall_ms: start.elapsed().as_millis(), retried: false }
 }
 
 pub fn create_cmd(ragc: &str, out: &str, inputs: &[String], p: &Params) -> Command {
